@@ -76,6 +76,12 @@ func VH_C11_batch() {
 		return res, err
 	}
 	b := bNode(m, exec).WithMaxRetries(N)
+	if vNondet[bool]("swallowingFallback") {
+		// a custom fallback that recovers every failure with a default value: what it is given is the
+		// business of C07; here it must not turn items that never ran into successes
+		vCover("custom-fallback-that-recovers")
+		WithExecFallbackFunc(func(p any, err error) (any, error) { return &vTok{id: 4242}, nil }).apply(b.CustomNode)
+	}
 	_, err := Run(m.ctx, b, NewSharedStore())
 	// the run terminated (a hang is reported by the engine as a deadlock on that schedule)
 	if err != nil {
